@@ -48,9 +48,11 @@ func buildSUT(router, issuer string, cryptoKey byte, st *vkit.Store, extras, hos
 
 // tePlus: Act = which `act` claim the storage publishes in the tokens of an exchange (see decideAct); VouchRole = in which
 // role the storage's TokenExchangeTokensVerifierStorage vouches for third-party tokens ("" both | subject-only | actor-only).
+// Veto = the storage refuses the exchange at one of its calls with an error value of a generated style (veto_test.go).
 type tePlus struct {
 	Act       string
 	VouchRole string
+	Veto      *vetoPlan
 }
 
 var (
@@ -111,12 +113,20 @@ type teActing struct {
 }
 
 func (t teActing) ValidateTokenExchangeRequest(ctx context.Context, r op.TokenExchangeRequest) error {
-	return t.inner.ValidateTokenExchangeRequest(ctx, r)
+	return t.tp.Veto.around("validate", "ValidateTokenExchangeRequest", func() error { return t.inner.ValidateTokenExchangeRequest(ctx, r) })
 }
 func (t teActing) CreateTokenExchangeRequest(ctx context.Context, r op.TokenExchangeRequest) error {
-	return t.inner.CreateTokenExchangeRequest(ctx, r)
+	return t.tp.Veto.around("create", "CreateTokenExchangeRequest", func() error { return t.inner.CreateTokenExchangeRequest(ctx, r) })
 }
-func (t teActing) GetPrivateClaimsFromTokenExchangeRequest(ctx context.Context, r op.TokenExchangeRequest) (map[string]any, error) {
+func (t teActing) GetPrivateClaimsFromTokenExchangeRequest(ctx context.Context, r op.TokenExchangeRequest) (claims map[string]any, err error) {
+	err = t.tp.Veto.around("claims", "GetPrivateClaimsFromTokenExchangeRequest", func() error {
+		var e error
+		claims, e = t.privateClaims(ctx, r)
+		return e
+	})
+	return claims, err
+}
+func (t teActing) privateClaims(ctx context.Context, r op.TokenExchangeRequest) (map[string]any, error) {
 	claims, err := t.inner.GetPrivateClaimsFromTokenExchangeRequest(ctx, r)
 	if err != nil {
 		return claims, err
@@ -133,6 +143,9 @@ func (t teActing) GetPrivateClaimsFromTokenExchangeRequest(ctx context.Context, 
 	return claims, nil
 }
 func (t teActing) SetUserinfoFromTokenExchangeRequest(ctx context.Context, ui *oidc.UserInfo, r op.TokenExchangeRequest) error {
+	return t.tp.Veto.around("claims", "SetUserinfoFromTokenExchangeRequest", func() error { return t.userinfo(ctx, ui, r) })
+}
+func (t teActing) userinfo(ctx context.Context, ui *oidc.UserInfo, r op.TokenExchangeRequest) error {
 	if err := t.inner.SetUserinfoFromTokenExchangeRequest(ctx, ui, r); err != nil {
 		return err
 	}
@@ -146,21 +159,32 @@ func (t teActing) SetUserinfoFromTokenExchangeRequest(ctx context.Context, ui *o
 type roleVerifier struct {
 	inner op.TokenExchangeTokensVerifierStorage
 	role  string
+	veto  *vetoPlan
 }
 
 var errNotVouched = fmt.Errorf("third party token is not accepted in this role")
 
-func (v roleVerifier) VerifyExchangeSubjectToken(ctx context.Context, token string, tt oidc.TokenType) (string, string, map[string]any, error) {
+func (v roleVerifier) VerifyExchangeSubjectToken(ctx context.Context, token string, tt oidc.TokenType) (id, sub string, claims map[string]any, err error) {
 	if v.role == "actor-only" {
 		return "", "", nil, errNotVouched
 	}
-	return v.inner.VerifyExchangeSubjectToken(ctx, token, tt)
+	err = v.veto.around("verify", "VerifyExchangeSubjectToken", func() error {
+		var e error
+		id, sub, claims, e = v.inner.VerifyExchangeSubjectToken(ctx, token, tt)
+		return e
+	})
+	return id, sub, claims, err
 }
-func (v roleVerifier) VerifyExchangeActorToken(ctx context.Context, token string, tt oidc.TokenType) (string, string, map[string]any, error) {
+func (v roleVerifier) VerifyExchangeActorToken(ctx context.Context, token string, tt oidc.TokenType) (id, sub string, claims map[string]any, err error) {
 	if v.role == "subject-only" {
 		return "", "", nil, errNotVouched
 	}
-	return v.inner.VerifyExchangeActorToken(ctx, token, tt)
+	err = v.veto.around("verify", "VerifyExchangeActorToken", func() error {
+		var e error
+		id, sub, claims, e = v.inner.VerifyExchangeActorToken(ctx, token, tt)
+		return e
+	})
+	return id, sub, claims, err
 }
 
 // the library detects optional capabilities by type assertion: one wrapper type per capability set used here
@@ -181,13 +205,40 @@ type (
 	}
 )
 
+// the storage's calls outside the TokenExchangeStorage interface at which it can refuse an exchange (the results of a call
+// that was made before the refusal are handed back with the error)
+func (w wrapped) CreateAccessToken(ctx context.Context, r op.TokenRequest) (id string, exp time.Time, err error) {
+	err = w.tp.Veto.around("issue", "CreateAccessToken", func() error {
+		var e error
+		id, exp, e = w.Storage.CreateAccessToken(ctx, r)
+		return e
+	})
+	return id, exp, err
+}
+func (w wrapped) CreateAccessAndRefreshTokens(ctx context.Context, r op.TokenRequest, current string) (id, refresh string, exp time.Time, err error) {
+	err = w.tp.Veto.around("issue", "CreateAccessAndRefreshTokens", func() error {
+		var e error
+		id, refresh, exp, e = w.Storage.CreateAccessAndRefreshTokens(ctx, r, current)
+		return e
+	})
+	return id, refresh, exp, err
+}
+func (w wrapped) TokenRequestByRefreshToken(ctx context.Context, token string) (rr op.RefreshTokenRequest, err error) {
+	err = w.tp.Veto.around("lookup", "TokenRequestByRefreshToken", func() error {
+		var e error
+		rr, e = w.Storage.TokenRequestByRefreshToken(ctx, token)
+		return e
+	})
+	return rr, err
+}
+
 func wrapStorage(shaped op.Storage, extras bool, tp tePlus) op.Storage {
 	w := wrapped{shaped, shaped.(op.ClientCredentialsStorage), shaped.(op.DeviceAuthorizationStorage), teActing{shaped.(op.TokenExchangeStorage), tp}}
 	if !extras {
 		return w
 	}
 	return wrappedExtras{w, shaped.(op.CanTerminateSessionFromRequest), shaped.(op.CanSetUserinfoFromRequest), shaped.(op.CanGetPrivateClaimsFromRequest),
-		shaped.(op.JWTProfileTokenStorage), roleVerifier{shaped.(op.TokenExchangeTokensVerifierStorage), tp.VouchRole}}
+		shaped.(op.JWTProfileTokenStorage), roleVerifier{shaped.(op.TokenExchangeTokensVerifierStorage), tp.VouchRole, tp.Veto}}
 }
 
 // buildWrapped: vkit.Build for the specs of this package (default endpoints, static or host-derived issuer), with the
